@@ -13,6 +13,9 @@ def groups(tier, seed):
     gs = [g for g in C08.move_groups(tier) if ".null" in g.gid and not (tier == "quick" and g.gid.startswith("K.mzd_transpose.") and g.slots > 1)]
     gs += [g for g in C14.groups(tier, seed) if not g.canary and any(x in g.gid for x in ("calloc", "init", "mmc_malloc"))]
     gs += [g for g in C01.mul_groups(tier) if ".null" in g.gid][:3]
+    # destinations with prior content / last word shared with the padding: the adders' end-mask classes and the naive product into a window
+    gs += [g for g in C08.move_groups(tier) if g.gid.startswith("K._mzd_add.2x125.")]
+    gs += [g for g in C01.mul_groups(tier) if g.gid.startswith("B.mzd_mul_naive.2x10x70.")]
     for g in gs:
         if "C10" not in g.props:
             g.props.append("C10")
